@@ -40,7 +40,7 @@ def shape (bytes : List Nat) : String :=
   | .err => "err"
   | .panic => "panic"
 
-def realCodec : Codec := { b64e := IcyVerif.B64.encode, b64d := IcyVerif.B64.decode, fmt := IcyVerif.B64.fmtNat, parse := IcyVerif.B64.parseUsize }
+def realCodec : Codec := IcyVerif.B64.stdCodec
 
 /-- the font a C17 case talks about: `n` glyphs of `h` rows, rows from the filler -/
 def mkFont (n h seed : Nat) : BitFont :=
@@ -72,6 +72,16 @@ def fontOps (f : BitFont) (op : String) (extra : List String) : String :=
   | "dcs", [slot] => (match slot.toNat? with
     | some slot => hashRes (match encodeAnsi realCodec f slot with
         | .ok d => .ok ([27, 80] ++ d ++ [27, 92]) | .err => .err | .panic => .panic)
+    | none => "bad-op")
+  | "guard", [] => (match f.toU8 with
+    | .ok d => s!"{rawGuard d f.h.toNat}"
+    | _ => "panic")
+  | "clip", [k] => (match k.toNat? with
+    | some k => (match f.clipData k with
+      | some d => (match fromClip d with
+        | .ok ((w, h), g) => s!"{d.length}:{hashBytes d} {w} {h} {hashBytes g}"
+        | _ => "panic")
+      | none => "none")
     | none => "bad-op")
   | "rtpsf2", [] => (match f.toPsf2 with
     | .ok d => (match fromBytes d with | .ok f' => s!"{decide (f' = f)}" | _ => "fail")
